@@ -44,11 +44,15 @@ PseudoOf(list, n) == LET idx == {i \in 1..Len(list) : list[i].name = n} IN
 AsHdr(e) == [t |-> "plain", name |-> e.name, ln |-> Lower(e.name), lws |-> "", value |-> e.value, rws |-> ""]
 Regular(list) == LET r == SelectSeq(list, LAMBDA e : ~IsPseudo(e.name)) IN [i \in 1..Len(r) |-> AsHdr(r[i])]
 
+\* HPACK can carry a field with an empty value; such a field says nothing: an empty referer or user-agent is reported as
+\* absent (the referer reported is the last one that has a value), an empty cookie field contributes no pair
+NoEmpty(x) == IF x = <<"">> THEN <<>> ELSE x
+LastRefererWithValue(m) == LastReferer([m EXCEPT !.hs = SelectSeq(m.hs, LAMBDA h : ~(IsName(h, "referer") /\ ValueOf(h) = ""))])
 \* cookie pairs of every cookie header, in order; the generators write one pair per `; `-separated element
 H2Meaning(list, isreq, D) ==
   LET m == [kind |-> IF isreq THEN "req" ELSE "resp", hs |-> Regular(list), ver |-> "2"]
       kept == Kept(m)
-      sw == IF isreq THEN First(kept, "user-agent") ELSE First(m.hs, "server")
+      sw == NoEmpty(IF isreq THEN First(kept, "user-agent") ELSE First(m.hs, "server"))
       ho == Horder(m, D)
       ha == Habsent(m)
   IN [kind |-> m.kind,
@@ -56,7 +60,7 @@ H2Meaning(list, isreq, D) ==
       status |-> IF isreq THEN <<>> ELSE PseudoOf(list, ":status"),
       headers |-> [i \in 1..Len(kept) |-> [name |-> kept[i].name, value |-> kept[i].value]],
       cookievals |-> IF isreq THEN [i \in 1..Len(SelectSeq(m.hs, LAMBDA h : h.ln = "cookie")) |-> SelectSeq(m.hs, LAMBDA h : h.ln = "cookie")[i].value] ELSE <<>>,
-      referer |-> IF isreq THEN LastReferer(m) ELSE <<>>,
+      referer |-> IF isreq THEN LastRefererWithValue(m) ELSE <<>>,
       ua |-> IF isreq THEN sw ELSE <<>>,
       obs |-> [ver |-> "2", horder |-> ho, habsent |-> ha, sw |-> IF Len(sw) = 0 THEN "???" ELSE sw[1]],
       text |-> PrintHttpSig([ver |-> "2", horder |-> ho, habsent |-> ha, sw |-> IF Len(sw) = 0 THEN "???" ELSE sw[1]])]
